@@ -51,6 +51,34 @@ theorem reindent_length (ind s : Str) :
       simp [reindent, hc, ih, List.count_cons, this]
       omega
 
+-- **reindentDict_id**: a lib without a newline in any string or key, at any depth, is left alone by the
+-- re-indentation, whatever the options (the guard of `glif_roundtrip_partial`, as a predicate)
+open Spec02 in
+mutual
+theorem reindentPV_id (ind : Str) : ∀ v : PV, pvHasNewline v = false → reindentPV ind v = v
+  | .str s, h => by
+    have : '\n' ∉ s := by simpa [pvHasNewline] using h
+    simp [reindentPV, reindent_id_of_no_newline ind s this]
+  | .atom _, _ => by simp [reindentPV]
+  | .arr xs, h => by
+    have h' : listHasNewline xs = false := by simpa [pvHasNewline] using h
+    simp [reindentPV, reindentList_id ind xs h']
+  | .dict kvs, h => by
+    have h' : dictHasNewline kvs = false := by simpa [pvHasNewline] using h
+    simp [reindentPV, reindentDict_id ind kvs h']
+theorem reindentList_id (ind : Str) : ∀ xs : List PV, listHasNewline xs = false → reindentList ind xs = xs
+  | [], _ => by simp [reindentList]
+  | x :: r, h => by
+    have h' : pvHasNewline x = false ∧ listHasNewline r = false := by simpa [listHasNewline] using h
+    simp [reindentList, reindentPV_id ind x h'.1, reindentList_id ind r h'.2]
+theorem reindentDict_id (ind : Str) : ∀ kvs : List (Str × PV), dictHasNewline kvs = false → reindentDict ind kvs = kvs
+  | [], _ => by simp [reindentDict]
+  | (k, v) :: r, h => by
+    have h' : ('\n' ∉ k ∧ pvHasNewline v = false) ∧ dictHasNewline r = false := by
+      simpa [dictHasNewline] using h
+    simp [reindentDict, reindent_id_of_no_newline ind k h'.1.1, reindentPV_id ind v h'.1.2, reindentDict_id ind r h'.2]
+end
+
 /-- **glif_roundtrip_counterexample (lib text)**: "line1\nline2" does not come back, and what comes back depends
     on the options -/
 theorem glif_roundtrip_counterexample_lib_newline :
@@ -161,6 +189,138 @@ theorem glif_roundtrip_partial_no_object_libs (hc : Codec f rd nc ok) {g : Glyph
 
 end
 
+/-! ### the newline guard, from the oracle's feature test -/
+
+section
+open Spec02
+
+theorem dictHasNewline_append (a b : Dict) : dictHasNewline (a ++ b) = (dictHasNewline a || dictHasNewline b) := by
+  induction a with
+  | nil => simp [dictHasNewline]
+  | cons e r ih =>
+    obtain ⟨k, v⟩ := e
+    simp [dictHasNewline, ih, Bool.or_assoc]
+
+theorem dictHasNewline_flatMap {α : Type} (e : α → Dict) (xs : List α) (h : ∀ x, x ∈ xs → dictHasNewline (e x) = false) :
+    dictHasNewline (xs.flatMap e) = false := by
+  induction xs with
+  | nil => simp [dictHasNewline]
+  | cons x r ih =>
+    rw [List.flatMap_cons, dictHasNewline_append, h x List.mem_cons_self,
+      ih (fun y hy => h y (List.mem_cons_of_mem _ hy))]
+    rfl
+
+theorem validIdent_no_newline {i : Str} (h : validIdent i = true) : '\n' ∉ i := by
+  simp only [validIdent, Bool.and_eq_true, List.all_eq_true, decide_eq_true_eq] at h
+  intro hm
+  exact absurd (h.2 _ hm) (by decide)
+
+theorem ent_no_newline {id : Option Str} {lib : Option Dict} (hi : ∀ i, id = some i → validIdent i = true)
+    (hl : ∀ l, lib = some l → dictHasNewline l = false) : dictHasNewline (ent id lib) = false := by
+  cases lib with
+  | none => cases id <;> simp [ent, dictHasNewline]
+  | some l =>
+    cases id with
+    | none => simp [ent, dictHasNewline]
+    | some i => simp [ent, dictHasNewline, pvHasNewline, validIdent_no_newline (hi i rfl), hl l rfl]
+
+/-- the guard of `glif_roundtrip_partial` from the oracle's own feature test: if no lib of the glyph (its own or an
+    object's) has a newline in a string or key, the lib that is written has none either -/
+theorem writtenLib_no_newline {ok : Nat → Prop} {g : Glyph} (hv : ValidGlyph ok g)
+    (hkey : dictGet objectLibsKey g.lib = none)
+    (h : (allLibs g).any dictHasNewline = false) : dictHasNewline (writtenLib g) = false := by
+  have hall : ∀ d, d ∈ allLibs g → dictHasNewline d = false := by
+    intro d hd
+    have := List.any_eq_false.1 h d hd
+    simpa using this
+  have h0 : dictHasNewline g.lib = false := hall _ (by simp [allLibs])
+  have hA : ∀ a, a ∈ g.anchors → ∀ l, a.lib = some l → dictHasNewline l = false := by
+    intro a ha l hl
+    exact hall l (by simp only [allLibs, List.mem_cons, List.mem_append, List.mem_map]; exact Or.inr (Or.inl (Or.inl (Or.inl ⟨a, ha, by simp [optDict, hl]⟩))))
+  have hG : ∀ a, a ∈ g.guidelines → ∀ l, a.lib = some l → dictHasNewline l = false := by
+    intro a ha l hl
+    exact hall l (by simp only [allLibs, List.mem_cons, List.mem_append, List.mem_map]; exact Or.inr (Or.inl (Or.inl (Or.inr ⟨a, ha, by simp [optDict, hl]⟩))))
+  have hC : ∀ c, c ∈ g.contours → (∀ l, c.lib = some l → dictHasNewline l = false) ∧
+      ∀ p, p ∈ c.points → ∀ l, p.lib = some l → dictHasNewline l = false := by
+    intro c hc
+    refine ⟨fun l hl => hall l ?_, fun p hp l hl => hall l ?_⟩
+    · simp only [allLibs, List.mem_cons, List.mem_append, List.mem_flatMap]
+      exact Or.inr (Or.inl (Or.inr ⟨c, hc, by simp [optDict, hl]⟩))
+    · simp only [allLibs, List.mem_cons, List.mem_append, List.mem_flatMap, List.mem_map]
+      exact Or.inr (Or.inl (Or.inr ⟨c, hc, Or.inr ⟨p, hp, by simp [optDict, hl]⟩⟩))
+  have hK : ∀ a, a ∈ g.components → ∀ l, a.lib = some l → dictHasNewline l = false := by
+    intro a ha l hl
+    exact hall l (by simp only [allLibs, List.mem_cons, List.mem_append, List.mem_map]; exact Or.inr (Or.inr ⟨a, ha, by simp [optDict, hl]⟩))
+  have hol : dictHasNewline (dumpObjectLibs g) = false := by
+    rw [dumpObjectLibs_eq hv.idents]
+    simp only [dictHasNewline_append, Bool.or_eq_false_iff]
+    refine ⟨?_, ?_, ?_, ?_⟩
+    · exact dictHasNewline_flatMap _ _ (fun a ha => ent_no_newline (hv.anchors a ha).ident (hA a ha))
+    · exact dictHasNewline_flatMap _ _ (fun a ha => ent_no_newline (hv.guidelines a ha).ident (hG a ha))
+    · refine dictHasNewline_flatMap _ _ (fun c hc => ?_)
+      rw [entsC, dictHasNewline_append, ent_no_newline (hv.contours c hc).ident (hC c hc).1]
+      exact dictHasNewline_flatMap _ _ (fun p hp => ent_no_newline ((hv.contours c hc).points p hp).ident ((hC c hc).2 p hp))
+    · exact dictHasNewline_flatMap _ _ (fun a ha => ent_no_newline (hv.components a ha).ident (hK a ha))
+  unfold writtenLib
+  simp only
+  split
+  · exact h0
+  · rw [dictInsert_fresh ((dictGet_none_iff _ _).1 hkey), dictHasNewline_append, h0]
+    have : '\n' ∉ objectLibsKey := by decide
+    simp [dictHasNewline, pvHasNewline, hol, this]
+
+end
+
+/-! ### the round trip, object libs included -/
+
+section
+variable {f : Fmt} {rd : Str → Option Nat} {nc : Color → Color} {ok : Nat → Prop}
+
+/-- the glyph that comes back, libs included: `g` with colours as their three-decimal strings read, scales within
+    2^-52 of 1 as 1 and `-0` offsets as `0` -/
+def normGL (nc : Color → Color) (g : Glyph) : Glyph :=
+  { g with
+    guidelines := g.guidelines.map (nGuideline nc)
+    anchors := g.anchors.map (nAnchor nc)
+    components := g.components.map nComponent
+    contours := g.contours.map nContour
+    image := g.image.map (pImage nc) }
+
+/-- **glif_roundtrip_partial**: for every valid glyph — object libs included, each on an object with an identifier —
+    under the guards the recorded findings force (no newline in any string or key of any lib of the glyph — the oracle's
+    own `lib-newline` feature test `Spec02.guardFeatures` —, a note
+    that is its own non-empty trim, an advance that is normal or `+0`, the reserved key unused) the parser accepts what
+    the writer produces, for ANY options, and returns `normGL nc g`, which does not mention the options. -/
+theorem glif_roundtrip_partial (hc : Codec f rd nc ok) {g : Glyph} (hv : ValidGlyph ok g) (hl : LibsIdentified g)
+    (hkey : dictGet objectLibsKey g.lib = none)
+    (hnl : (Spec02.allLibs g).any Spec02.dictHasNewline = false)
+    (hnote : ∀ n, g.note = some n → trimText n = n ∧ n ≠ [])
+    (hadv : (isNormal g.width = true ∨ g.width = 0) ∧ (isNormal g.height = true ∨ g.height = 0)) :
+    parseGlif rd (encodeGlif f g) = .ok (normGL nc g) := by
+  replace hnl := writtenLib_no_newline hv hkey hnl
+  rw [parse_encode hc hv]
+  have hlib : (preG f nc g).lib = writtenLib g := by
+    simp only [preG]
+    exact reindentDict_id f.indent _ hnl
+  rw [encode_then_parse_restores_object_libs (nc := nc) hv.idents hl hkey (preG f nc g) rfl rfl rfl rfl hlib]
+  have hn : pNote g.note = g.note := by
+    cases hgn : g.note with
+    | none => rfl
+    | some n =>
+      obtain ⟨h1, h2⟩ := hnote n hgn
+      simp [pNote, h1, h2]
+  have hwd : (if isNormal g.width || isNormal g.height then (if nonZero g.width then g.width else 0) else 0) = g.width := by
+    rcases hadv.1 with h | h
+    · simp [h, isNormal_nonZero h]
+    · simp [h]
+  have hht : (if isNormal g.width || isNormal g.height then (if nonZero g.height then g.height else 0) else 0) = g.height := by
+    rcases hadv.2 with h | h
+    · simp [h, isNormal_nonZero h]
+    · simp [h]
+  simp only [preG, normGL, hn, hwd, hht]
+
+end
+
 /-! ### non-vacuity of the codec hypotheses and of `ValidGlyph` -/
 
 def ok0 : Nat → Prop := fun b => b = 0
@@ -202,5 +362,74 @@ example : parseGlif R0 (encodeGlif F0 g0) = .ok (normG nc0 g0) :=
      by intro c hc; simp [g0] at hc; subst hc; exact ⟨rfl, by intro p hp; simp at hp; subst hp; rfl⟩,
      by intro a ha; simp [g0] at ha; subst ha; rfl⟩
     (by decide) (by simp [g0, F0, reindentDict, reindentPV, reindent]) (by intro n hn; cases hn) ⟨Or.inr rfl, Or.inr rfl⟩
+
+def g1 : Glyph :=
+  { g0 with anchors := [{ x := 0, y := 0, name := some ['t'], color := some ⟨0, 0, 0, 0⟩, ident := some ['i'],
+                          lib := some [(['z'], PV.atom "b1")] }] }
+
+theorem valid_g1 : ValidGlyph ok0 g1 := by
+  have h := valid_g0
+  refine ⟨h.name, h.width, h.height, h.codepoints, h.codepointsNodup, h.image, ?_, h.guidelines, h.contours, h.components, by decide⟩
+  intro a ha; simp [g1] at ha; subst ha
+  exact ⟨rfl, rfl, (by intro n hn; cases hn; decide), (by intro i hi; cases hi; decide)⟩
+
+-- with an object lib: it travels under `public.objectLibs` and comes back on the anchor
+example : parseGlif R0 (encodeGlif F0 g1) = .ok (normGL nc0 g1) :=
+  glif_roundtrip_partial codec0 valid_g1
+    ⟨by intro a ha _; simp [g1] at ha; subst ha; rfl, by intro a ha; simp [g1, g0] at ha,
+     by intro c hc; simp [g1, g0] at hc; subst hc; exact ⟨by simp, by intro p hp; simp at hp; subst hp; simp⟩,
+     by intro a ha h; simp [g1, g0] at ha; subst ha; rfl⟩
+    (by decide) (by decide +kernel) (by intro n hn; cases hn) ⟨Or.inr rfl, Or.inr rfl⟩
+
+/-! ### non-vacuity of `legal_accepted` (C12): items out of canonical order, comments everywhere -/
+
+def d0 : GDoc :=
+  { prolog := [.decl, .comment], name := ['a'], minor := true,
+    items := [.comment,
+      .anchor { x := 0, y := 0, name := none, color := none, ident := some ['i'] },
+      .unicode 65,
+      .outline [.comment,
+        .contour none [.point { x := 0, y := 0, typ := .line, smooth := false, name := none, ident := some ['p'] }, .comment],
+        .emptyContour none,
+        .component { base := ['b'], transform := { xScale := 0, xyScale := 0, yxScale := 0, yScale := 0, xOffset := 0, yOffset := 0 }, ident := none }],
+      .note (some ['n']),
+      .advance 0 0,
+      .comment],
+    trailer := [.other] }
+
+theorem legal_d0 : LegalItems ok0 d0.items := by
+  refine ⟨?_, by decide, by decide, by decide, by decide, by decide, by decide⟩
+  intro it hit
+  simp only [d0, List.mem_cons, List.not_mem_nil, or_false] at hit
+  rcases hit with rfl | rfl | rfl | rfl | rfl | rfl | rfl
+  · trivial
+  · exact ⟨rfl, rfl, (by intro n hn; cases hn), (by intro i hi; cases hi; decide)⟩
+  · exact ⟨by decide, by decide⟩
+  · intro o ho
+    simp only [List.mem_cons, List.not_mem_nil, or_false] at ho
+    rcases ho with rfl | rfl | rfl | rfl
+    · trivial
+    · refine ⟨?_, by decide, by intro i hi; cases hi⟩
+      intro c hc
+      simp only [List.mem_cons, List.not_mem_nil, or_false] at hc
+      rcases hc with rfl | rfl
+      · exact ⟨rfl, rfl, (by intro n hn; cases hn), (by intro i hi; cases hi; decide)⟩
+      · trivial
+    · trivial
+    · exact ⟨by decide, ⟨rfl, rfl, rfl, rfl, rfl, rfl⟩, (by intro i hi; cases hi)⟩
+  · trivial
+  · exact ⟨rfl, rfl⟩
+  · trivial
+
+example : ∃ g, parseGlif R0 (render F0 d0) = .ok g ∧ loadObjectLibs (interp nc0 d0) = .ok g :=
+  legal_accepted codec0 d0 (by decide) (by decide) legal_d0 (by
+      have h0 : dictGet objectLibsKey (interp nc0 d0).lib = none := by decide
+      intro v hv; rw [h0] at hv; cases hv) (evs := render F0 d0)
+    (by
+      have refl : ∀ l : List Ev, EvsPerm l l := by
+        intro l; induction l with
+        | nil => exact EvsPerm.nil
+        | cons e r ih => exact EvsPerm.cons (EvPerm.refl e) ih
+      exact refl _)
 
 end Glif
